@@ -158,6 +158,7 @@ func c17Sequential(r *zsim.Run) {
 		eager = o.Intn(4) != 0
 	}
 	nextVal := 0
+	forced := ""
 	for i := 0; i < nops && !r.Failed(); i++ {
 		if !resolve() {
 			return
@@ -177,7 +178,13 @@ func c17Sequential(r *zsim.Run) {
 			}
 		}
 		k := keys[o.Intn(len(keys))]
-		if o.Intn(2) == 0 {
+		op := o.Intn(11)
+		if forced != "" {
+			// the previous step went to a tick on which this key may expire: the operation goes to that key and is
+			// more often a replacement
+			k, forced = forced, ""
+			op = zsim.Pick(o, 9, 9, 9, 0, 2, 3, 5, 6)
+		} else if o.Intn(2) == 0 {
 			// half of the time the operation goes to a key that may be expiring right now, if there is one
 			var due []string
 			for _, kk := range keys {
@@ -190,7 +197,28 @@ func c17Sequential(r *zsim.Run) {
 				r.Probe("operation_on_a_key_that_may_be_expiring")
 			}
 		}
-		switch o.Intn(10) {
+		switch op {
+		case 10: // go to a tick on which a pending entry may expire; the next operation goes to its key without waiting
+			var pend []string
+			for _, kk := range keys {
+				if e := model[kk]; e != nil && mayUntil(e) > r.Now() {
+					pend = append(pend, kk)
+				}
+			}
+			if len(pend) == 0 {
+				break
+			}
+			kk := pend[o.Intn(len(pend))]
+			e := model[kk]
+			at := (e.setAt + e.expire*time.Duration(95+o.Intn(11))/100).Truncate(time.Second) + time.Duration(o.Intn(2))*time.Second
+			if at <= r.Now() {
+				break
+			}
+			zsim.Sleep(at - r.Now())
+			r.Logf("advanced to %v, a tick on which %s may expire", at, kk)
+			r.Probe("advanced_to_a_possible_expiry_tick")
+			forced = kk
+			continue
 		case 9: // replace: Del and Set of the same key back to back (a pending expiry of the old entry must not touch the new one)
 			nextVal++
 			c.Del(k)
